@@ -5,6 +5,7 @@ CONSTANTS
   Lens <- L12
   OutLens <- O4
   TrailerLen <- NoTrailer
+  DeclaredLen = FALSE
   Limit = 6
   Cuts = TRUE
   MaxWrite = 7
